@@ -51,6 +51,11 @@ Resolve(base, ref) ==
 SameDoc(u, v) == /\ u.scheme = v.scheme /\ u.host = v.host
                  /\ u.segs = v.segs /\ u.query = v.query
 
+\* The library treats the query of a LOCAL FILE location as irrelevant (normalizeBase: "any query
+\* component is irrelevant for a local file"): file:///d/x.json?rev=2 is the document file:///d/x.json.
+NoFileQuery(u) == IF u.scheme = "file" THEN [u EXCEPT !.query = ""] ELSE u
+SameDocLocal(u, v) == SameDoc(NoFileQuery(u), NoFileQuery(v))
+
 IsFragOnly(u) == u.scheme = "" /\ u.host = "" /\ ~u.abs /\ u.segs = <<>> /\ u.query = ""
 IsAbsoluteUrl(u) == u.scheme # "" /\ (u.abs \/ u.segs = <<>>)
 HasDots(u) == \E i \in 1..Len(u.segs) : u.segs[i] \in DotSegs
